@@ -39,27 +39,32 @@ Inductive gob_ep :=
 | GEIris                    (* ( *IRIs).GobDecode *)
 | GEMime | GELangRef | GEContent   (* a gob []byte, or nothing *)
 | GENlv                     (* ( *NaturalLanguageValues).GobDecode into a nil list *)
-| GESource | GEPubKey | GEEndpoints.
+| GESource | GEPubKey | GEEndpoints
+| GELrv.                    (* ( *LangRefValue).GobDecode into a zero value: one kv struct, or nothing *)
 
 Definition all_gob_eps : list gob_ep :=
-  [GEItem; GEItems] ++ map GEKind all_kinds ++ [GEIri; GEType; GEIris; GEMime; GELangRef; GEContent; GENlv; GESource; GEPubKey; GEEndpoints].
+  [GEItem; GEItems] ++ map GEKind all_kinds ++ [GEIri; GEType; GEIris; GEMime; GELangRef; GEContent; GENlv; GESource; GEPubKey; GEEndpoints; GELrv].
 
 Inductive gob_val :=
 | GVItem (i : item) | GVItems (l : list item) | GVFields (fs : list (fid * fval)) | GVVal (v : fval)
-| GVIris (l : list bytes) | GVStr (s : bytes).
+| GVIris (l : list bytes) | GVStr (s : bytes) | GVLeaf (v : lval).
 
 Definition run_gob (E : gob_env) (ep : gob_ep) (w : wire) : outcome gob_val :=
   match ep with
   | GEItem => omap GVItem (gdec E w)
   | GEItems => omap GVItems (gdec_items E w)
   | GEKind k => omap GVFields (gdec_k E k w)
-  | GEIri | GEType => Ok (GVStr (wire_bytes_or_garbage w))
-  | GEIris => omap GVIris (dec_iris w)
-  | GEMime | GELangRef | GEContent => omap GVStr (rdec_mime [] w)
-  | GENlv => omap (fun l => GVVal (FNlv l)) (rdec_nlv_method None w)
+  | GEIri => omap (fun v => GVStr (lv_str v)) (lr_method E n_iri_dec (LvStr []) w)
+  | GEType => omap (fun v => GVStr (lv_str v)) (lr_method E n_type_dec (LvStr []) w)
+  | GEIris => omap (fun v => GVIris (lv_strs v)) (dec_iris_t E w (LvStrs []))
+  | GEMime => omap (fun v => GVStr (lv_str v)) (lr_method E n_mime_dec (LvStr []) w)
+  | GELangRef => omap (fun v => GVStr (lv_str v)) (lr_method E n_langref_dec (LvStr []) w)
+  | GEContent => omap (fun v => GVStr (lv_str v)) (lr_method E n_content_dec (LvStr []) w)
+  | GENlv => omap (fun v => GVVal (FNlv (lv_nlv v))) (lr_method E n_nlv_dec (LvNlv None) w)
   | GESource => omap GVVal (rdec_source E (gdec E) None w)
   | GEPubKey => omap GVVal (rdec_pubkey E (gdec E) None w)
-  | GEEndpoints => omap GVVal (rdec_endpoints_fn E (gdec E) w)
+  | GEEndpoints => omap GVVal (rdec_endpoints_method E (gdec E) w)
+  | GELrv => omap GVLeaf (lr_method E n_lrv_dec (LvKv [] []) w)
   end.
 
 (* a value or an error: no panic, no fuel exhaustion *)
